@@ -1,7 +1,7 @@
 """C03 -- transport tensors are symmetric, non-negative and crystal-invariant (run-time contracts, level B)."""
 from vf.common import Report, finish, SEED
 from vf.rtc import runner, catalogue
-from contracts import interstitial_rt as I, vacancy_rt as V
+from contracts import interstitial_rt as I, vacancy_rt as V, interstitial_sx as IS
 
 
 def main(tier):
@@ -9,6 +9,9 @@ def main(tier):
     n = len(catalogue.builders(tier, SEED)) + len(catalogue.interstitial_extras(tier, SEED))
     runner.run(rep, 'Interstitial::contract', I.w_interstitial, [(i, tier, SEED, 'C03') for i in range(n)], 'onsager/OnsagerCalc.py::Interstitial.diffusivity')
     runner.run(rep, 'VacancyMediated::contract', V.w_vacancy, [(cid, tier, SEED, 'C03') for cid in V.vac_ids(tier)], 'onsager/OnsagerCalc.py::VacancyMediated.Lij')
+    # symmetry and point-group invariance of the interstitial tensors for EVERY value of the prefactors and energies (level S: the real
+    # Interstitial.diffusivity run on symbolic data, one run per catalogue network)
+    IS.run_all(rep, tier, 'C03:')
 
     from vf import extract
     for rel, q in [('onsager/OnsagerCalc.py', 'Interstitial.diffusivity'), ('onsager/OnsagerCalc.py', 'Interstitial.elastodiffusion'), ('onsager/OnsagerCalc.py', 'VacancyMediated.Lij')]:
